@@ -672,3 +672,12 @@ def mon_pacing(case, obs):
                             i, last_snap['next_vblank'], s['next_vblank'], now)
             last_snap = s
     return None
+
+
+def final_fields_str(tok):
+    """fields of an `fs` observation (tokens joined by spaces inside one op output)"""
+    d = {}
+    for t in tok.split(';'):
+        k, _, v = t.partition(':')
+        d[k] = v
+    return d
